@@ -22,7 +22,7 @@ func violOf(r *runResult, class string) (violation, bool) {
 
 // tryReplay executes one replay record in a fresh worker process.
 func tryReplay(bin string, rec *replayRec, workDir string, tier string) *runResult {
-	j := &job{Property: rec.Property, Scenario: rec.Scenario, Replay: rec, Tier: tier, WantPlan: true}
+	j := &job{Property: rec.Property, Scenario: rec.Scenario, Replay: rec, Tier: tier, WantPlan: true, Params: rec.Params}
 	bo := runWorker(bin, j, workDir, 120*time.Second, false)
 	if len(bo.results) > 0 {
 		return bo.results[0]
@@ -301,6 +301,11 @@ func shrink(bin string, rec *replayRec, class string, workDir string, tier strin
 
 func reportViolation(prop, class string, r *runResult, bin, workDir, repoKey string, noShrink bool, base uint64, tier string) string {
 	rec := &replayRec{Property: prop, Scenario: r.scenario, Seed: r.Seed, Plan: r.Plan, Tape: r.Tape, Tree: repoKey}
+	for _, sc := range props[prop].Scenarios {
+		if sc.Name == r.scenario {
+			rec.Params = sc.Params
+		}
+	}
 	if r.Plan == nil {
 		// crashed run: re-derive the plan from the seed
 		res := tryReplay(bin, rec, workDir, tier)
